@@ -199,6 +199,10 @@ func init() {
 				}
 			}
 			for _, ret := range returnsOf(fn) {
+				fmt.Println("RETURN", c.P.Pos(posOf(ret.Ret, fn)))
+				for _, cj := range c.P.mustHoldAt(ret.Ret) {
+					fmt.Println("     ∨", strings.Join(cj.list(), "  ∧  "))
+				}
 				if len(ret.Results) == 1 && ret.Results[0].Type().String() == "bool" {
 					fmt.Println("RETURNS-TRUE-WHEN")
 					for _, cj := range c.P.boolDNF(ret.Results[0], true) {
